@@ -22,7 +22,7 @@ ASSUMPTIONS = [
     "RouterOS: a block is a section (its row is one path word), leaves live under sections (a leaf outside every section does not exist in RouterOS exports and is outside the domain)",
 ]
 EXHAUSTIVE = {"quick": True, "thorough": True}
-FLOORS = {"quick": {"roundtrips": 20000, "vendors": 14, "fixpoints": 20000, "custom_indent_roundtrips": 5000, "device_texts": 1500, "annotations_written": 1500, "nokia_nested_configure_rows": 150, "iosxr_block_end_lookalike_rows": 300, "cli_vocabulary_trees": 4000},
+FLOORS = {"quick": {"roundtrips": 20000, "vendors": 14, "fixpoints": 20000, "custom_indent_roundtrips": 5000, "device_texts": 1500, "annotations_written": 1500, "nokia_nested_configure_rows": 150, "iosxr_block_end_lookalike_rows": 300, "cli_vocabulary_trees": 4000, "rendered_texts_compared_with_rows": 15000},
           "thorough": {"roundtrips": 400000, "vendors": 14, "fixpoints": 400000, "custom_indent_roundtrips": 80000, "device_texts": 25000, "annotations_written": 25000, "nokia_nested_configure_rows": 2500, "iosxr_block_end_lookalike_rows": 5000, "cli_vocabulary_trees": 60000}}
 WORDS = ["a", "b1", "Eth-Trunk1", "10.0.0.1/24", "x.y", "k=v", "q_1", "peer", "description", "1", "ge-0/0/1", "descr:foo", "100:1"]
 BRACE = {"juniper", "ribbon", "nokia"}
@@ -155,6 +155,23 @@ def roundtrip(vname, tree, cls, acc, indent=None):
     acc.count("roundtrips")
     acc.case([vname, tree], nontrivial=tdepth(unplain(tree)) >= 2)
     key_known = KNOWN.get(cls)
+    if vname not in BRACE and vname != "routeros":
+        # an indentation-structured vendor: the rendered configuration is the rows of the tree, top-down, one per line, and nothing else
+        # (block terminators belong to patches)
+        try:
+            s0 = fmt.join(unplain(tree))
+        except Exception:
+            s0 = None
+        if s0 is not None:
+            def pre(t):
+                for r, c in t:
+                    yield r
+                    yield from pre(c)
+            acc.count("rendered_texts_compared_with_rows")
+            if [ln.strip() for ln in s0.split("\n") if ln.strip()] != list(pre(tree)):
+                acc.violation("C04/%s/rendered-text-is-not-the-rows-of-the-tree" % vname, "the rendered configuration holds lines that are not rows of the tree (or lacks some)",
+                              dict(w, text=s0.split("\n")[:40]))
+                return
     try:
         s = fmt.join(unplain(tree))
         t2 = plain(parse_to_tree(s, rd.split))
